@@ -861,10 +861,10 @@ func normalizeOut(v any) any {
 // ---------------------------------------------------------------------------
 
 type numKind struct {
-	isInt    bool
-	isFloat  bool
-	signed   bool
-	size     int // bytes
+	isInt   bool
+	isFloat bool
+	signed  bool
+	size    int // bytes
 }
 
 func kindOf(v any) (numKind, bool) {
